@@ -211,6 +211,10 @@ pub enum Op {
     /// clean restart with another encryption key (`off` = with encryption switched off), judged, then a
     /// restart with the right key again
     RestartKeyMismatch { off: bool },
+    /// a send to an explicit partition followed *at once* (no quiescence in between) by a purge of the topic
+    /// through the administrator's connection: whatever background work the send left behind (a batch on its
+    /// way to the file under no-wait confirmation, a segment being closed) meets the deletion of its segment
+    SendThenPurge { stream: IdRef, topic: IdRef, partition: u32, msgs: Vec<MsgSpec> },
     /// every kind of request on a fresh connection that never authenticated
     UnauthProbe { which: u32 },
     /// malformed frames on a fresh connection, derived from `seed`
@@ -228,6 +232,7 @@ impl Op {
             Op::UpdateTopic { .. } => "update_topic",
             Op::DeleteTopic { .. } => "delete_topic",
             Op::PurgeTopic { .. } => "purge_topic",
+            Op::SendThenPurge { .. } => "send_then_purge",
             Op::CreatePartitions { .. } => "create_partitions",
             Op::DeletePartitions { .. } => "delete_partitions",
             Op::CreateGroup { .. } => "create_group",
